@@ -34,6 +34,9 @@ pub enum Mode {
     PerByte,
     /// explored: cuts / delays / scheduling deviations up to the bound
     Explore,
+    /// server role: one write per frame, and the request is handled INSIDE the accept loop (accept() is not polled,
+    /// nothing drives the connection, until the handler has returned)
+    Inline,
 }
 
 #[derive(Clone, Debug)]
@@ -132,6 +135,7 @@ const HORIZON: usize = 4000;
 pub fn execute(case: &Case, seed: u64) -> Outcome {
     fastrand::seed(seed);
     set_app_pauses(case.mode == Mode::Explore);
+    set_inline_handlers(case.mode == Mode::Inline);
     let alpha = alphabet(case.role);
     let (bytes, bounds) = seq_bytes(&alpha, &case.seq);
     let mut cfg = NetCfg::default();
@@ -219,7 +223,7 @@ pub fn execute(case: &Case, seed: u64) -> Outcome {
                 }
             }
             match mode {
-                Mode::PerFrame => {
+                Mode::PerFrame | Mode::Inline => {
                     let mut last = 0;
                     for &b in &bounds {
                         net.raw_write(peer, 0, &bytes[last..b]);
@@ -499,6 +503,7 @@ fn case_from_json(v: &Value) -> Case {
             "Whole" => Mode::Whole,
             "PerFrame" => Mode::PerFrame,
             "PerByte" => Mode::PerByte,
+            "Inline" => Mode::Inline,
             _ => Mode::Explore,
         },
     }
@@ -511,7 +516,7 @@ pub fn run(args: &Args) -> i32 {
     let mut rep = Report::new("C03", args.tier, args.seed, "model_checking");
     rep.exhaustive = true;
     rep.rule = format!(
-        "all frame sequences of length <= {n} over a 15-item alphabet (HEADERS, DATA(0), DATA(3), trailers, unknown(0), unknown(2), CANCEL_PUSH, SETTINGS, GOAWAY, MAX_PUSH_ID, PUSH_PROMISE, 0x2/0x6/0x8/0x9), extended only while the reference automaton is not in an error state; x ending (FIN, RESET(0x10c), open) x role (server receive, client receive) x delivery (whole, one write per frame, one byte per read, and explored: every cut/delay/scheduling deviation and application pause between two calls up to {bound}). Real h3 endpoint under the documented call pattern over simnet; oracle refimpl::h3auto. states = distinct (transport state, application observation) fingerprints; non-trivial = cases whose sequence has >= 2 frames."
+        "all frame sequences of length <= {n} over a 15-item alphabet (HEADERS, DATA(0), DATA(3), trailers, unknown(0), unknown(2), CANCEL_PUSH, SETTINGS, GOAWAY, MAX_PUSH_ID, PUSH_PROMISE, 0x2/0x6/0x8/0x9), extended only while the reference automaton is not in an error state; x ending (FIN, RESET(0x10c), open) x role (server receive, client receive) x delivery (whole, one write per frame, one byte per read, one write per frame with the request handled inside the server's accept loop, and explored: every cut/delay/scheduling deviation and application pause between two calls up to {bound}). Real h3 endpoint under the documented call pattern over simnet; oracle refimpl::h3auto. states = distinct (transport state, application observation) fingerprints; non-trivial = cases whose sequence has >= 2 frames."
     );
     rep.assumptions = vec![
         "refimpl::h3auto transcribes RFC 9114 4.1 (unit-tested); PUSH_PROMISE asserted for the server role only; a response stream FIN-ed before HEADERS is not asserted (DESIGN.md 7)".into(),
@@ -527,6 +532,9 @@ pub fn run(args: &Args) -> i32 {
                         continue;
                     }
                     cases.push(Case { role, seq: seq.clone(), end, mode });
+                }
+                if role == Role::ServerRecv {
+                    cases.push(Case { role, seq: seq.clone(), end, mode: Mode::Inline });
                 }
             }
         }
